@@ -75,11 +75,12 @@ extern int mpt_stream_sync(MPT_STRUCT(stream) *srm, size_t idlen, const MPT_STRU
 			if (timeout > 0) {
 				timeout = 0;
 			}
-			if ((ret = mpt_queue_recv(&srm->_rd))) {
+			if ((ret = mpt_queue_recv(&srm->_rd)) < 0) {
 				return ret;
 			}
-			if (ret) {
-				break;
+			/* message not complete */
+			if (!ret) {
+				continue;
 			}
 		}
 		/* remove processed data */
